@@ -162,6 +162,11 @@ def run(rep, proj, tier):
     rep.trusted_base = ["CPython ast", "yadsa partial evaluator and summaries", "algebra.subs for the substitutions P -> -P and eta -> 0"]
     rep.assumptions = ["heavy coefficient functions folded above threshold", "generic-point folding of symbolic weights"]
     check_eta(rep, proj)
+    # the relations compare runs (Z decoupled vs not, beam vs conjugate beam): nothing a coupling object computed for one run may be
+    # remembered for another (a process-wide memo of propagators / couplings keyed without the electroweak parameters)
+    from . import state
+
+    state.check(rep, proj, "C13.state", module_filter=lambda m: m.name in ("yadism.coefficient_functions.coupling_constants", "yadism.coefficient_functions.kernels"))
     jobs = _jobs(tier)
     outs = sweep.run_cells(_run, jobs)
     n_entries = 0
